@@ -72,16 +72,19 @@ Qed.
 Lemma scan_entry_len t rs kv : (length (scan_entry t rs kv) <= 1)%nat.
 Proof. unfold scan_entry. destruct (get_ks_value _ _ _ _) as [l|[[v c]|]]; cbn; lia. Qed.
 
-Lemma scan_fwd_firstn s e t rs st : forall limit,
-  scan_fwd st s e limit t rs = firstn limit (flat_map (scan_entry t rs) (filter (fun kv => in_range s e (fst kv)) st)).
+Lemma scan_gen_firstn (entry : key * kstate -> list pair) s e st : (forall kv, (length (entry kv) <= 1)%nat) -> forall limit,
+  scan_gen entry st s e limit = firstn limit (flat_map entry (filter (fun kv => in_range s e (fst kv)) st)).
 Proof.
-  induction st as [|kv r IH]; intros limit.
+  intros Hlen. induction st as [|kv r IH]; intros limit.
   - destruct limit; reflexivity.
-  - destruct limit as [|n]; [reflexivity|]. cbn [scan_fwd filter]. destruct (in_range s e (fst kv)).
+  - destruct limit as [|n]; [reflexivity|]. cbn [scan_gen filter]. destruct (in_range s e (fst kv)).
     + cbn [flat_map]. rewrite firstn_app. rewrite IH. f_equal.
-      apply eq_sym, firstn_all2. pose proof (scan_entry_len t rs kv). lia.
+      apply eq_sym, firstn_all2. specialize (Hlen kv). lia.
     + apply IH.
 Qed.
+Lemma scan_fwd_firstn s e t rs st limit :
+  scan_fwd st s e limit t rs = firstn limit (flat_map (scan_entry t rs) (filter (fun kv => in_range s e (fst kv)) st)).
+Proof. unfold scan_fwd. apply scan_gen_firstn. apply scan_entry_len. Qed.
 
 Lemma scan_entry_get st t rs kv : keys_sorted st -> In kv st -> scan_entry t rs kv = get_pairs st t rs (fst kv).
 Proof.
@@ -132,7 +135,7 @@ Qed.
 Lemma rscan_correct cmds s e limit t rs :
   snd (step (run cmds) (ReverseScan s e limit t rs)) = RPairs (spec_rscan (run cmds) s e limit t rs).
 Proof.
-  cbn [step snd]. unfold scan_rev, spec_rscan. rewrite scan_fwd_firstn, filter_rev'.
+  cbn [step snd]. unfold scan_rev, spec_rscan. rewrite (scan_gen_firstn _ s e (rev (run cmds)) (scan_entry_len t rs)), filter_rev'.
   rewrite flat_map_rev_small by (apply scan_entry_len).
   rewrite scan_all_entries; [reflexivity|apply (run_sorted cmds)].
 Qed.
